@@ -239,6 +239,8 @@ class Elementwise:
                 return ("call", "abs", (self.at(a[0], i, j),))
             if nm in ("cwiseSqrt", "sqrt"):
                 return ("call", "sqrt", (self.at(a[0], i, j),))
+            if nm in ("log", "exp") and len(a) == 1:
+                return ("call", nm, (self.at(a[0], i, j),))
             if nm in ("cwiseInverse", "inverse") and self.shape(a[0])[0] != "M" or nm == "cwiseInverse":
                 return ("/", NUM1, self.at(a[0], i, j))
             if nm == "square":
@@ -337,7 +339,7 @@ class Elementwise:
         return t
 
 
-_SHAPE_SAME = {"conjugate", "real", "imag", "cwiseAbs2", "abs2", "cwiseAbs", "abs", "cwiseSqrt", "sqrt",
+_SHAPE_SAME = {"conjugate", "real", "imag", "cwiseAbs2", "abs2", "cwiseAbs", "abs", "cwiseSqrt", "sqrt", "log", "exp",
                "cwiseInverse", "inverse", "square", "cube", "eval", "finished"}
 
 
